@@ -1,5 +1,5 @@
-//! Inbound packet filter (src/socket/filter/{mod,rate_limiter}.rs, src/permit_ban.rs) — binding for
-//! spec/Filter.tla (property C18).  Two systems under test, selected by the `reset` operation:
+//! Inbound packet filter (src/socket/filter/{mod,rate_limiter}.rs, src/permit_ban.rs, src/socket/recv.rs) — binding
+//! for spec/Filter.tla (property C18).  Three systems under test, selected by the `reset` operation:
 //!
 //!  * `sut = "limiter"`: the GCRA `Limiter<u64>` through `LimiterFacade`, explicit time
 //!    (`allows(now, key, tokens)`, `prune(limit)`); a second limiter that is never pruned gets the
@@ -8,8 +8,14 @@
 //!    (built by `RateLimiterBuilder`), the process-global PERMIT_BAN_LIST driven through the public
 //!    `Discv5::{ban_ip, permit_ip, ..}` API and read back with `ban_list_snapshot`.  A datagram
 //!    (`pkt`) takes `initial_pass` and, if it passed and names a node id, `final_pass` — the order
-//!    of `RecvHandler::handle_inbound`.  A second filter whose limiter is never pruned judges every
-//!    datagram first, against the same ban list (restored afterwards); its verdicts are `sh`.
+//!    of `RecvHandler::handle_inbound`; both stage verdicts are logged.
+//!  * `sut = "recv"`: the same filter inside the real `RecvHandler` (`RecvFacade`): a datagram
+//!    (`dgram`: a random-data message packet naming a node id, a WHOAREYOU packet, or undecodable
+//!    bytes) goes through `handle_inbound`; what reaches the packet handler is logged (drop /
+//!    inbound / unrecognized).  `expect` / `unexpect` edit the expected-response map.
+//!
+//! In the last two a second instance whose limiter is never pruned judges every datagram first,
+//! against the same ban list (restored afterwards); its verdicts are `sh`.
 //!
 //! One model tick = 10 s.  The limiter level is exact (explicit time).  The filter's `RateLimiter`
 //! reads `Instant::now()`: virtual time is passed with the `verif_age` hook, the microseconds a
@@ -18,7 +24,10 @@
 use crate::util::{self, Out};
 use discv5::enr::{CombinedKey, NodeId};
 use discv5::socket::FilterConfig;
-use discv5::verif::{ban_list_reset, ban_list_set, ban_list_snapshot, FilterFacade, LimiterFacade, LimiterVerdict};
+use discv5::verif::{
+    ban_list_reset, ban_list_set, ban_list_snapshot, random_packet, whoareyou_packet, FilterFacade, FilterRef, LimiterFacade, LimiterVerdict, RecvFacade,
+    RecvOutcome,
+};
 use discv5::{ConfigBuilder, Discv5, ListenConfig, NodeAddress, PermitBanList, RateLimiterBuilder};
 use rand::{rngs::StdRng, Rng, SeedableRng};
 use serde_json::{json, Value};
@@ -104,9 +113,24 @@ impl LimSut {
 }
 
 // ------------------------------------------------------------------------------------- filter
+/// The filter directly (`sut = "filter"`) or inside the receive task's handler (`sut = "recv"`).
+enum Backend {
+    Direct(FilterFacade),
+    Recv(RecvFacade),
+}
+impl Backend {
+    fn filter(&mut self) -> FilterRef<'_> {
+        match self {
+            Backend::Direct(f) => f.filter(),
+            Backend::Recv(r) => r.filter(),
+        }
+    }
+}
+
 struct FilterSut {
-    f: FilterFacade,
-    shadow: FilterFacade,
+    f: Backend,
+    shadow: Backend,
+    local_id: NodeId,
     now: i64,
     t0: Instant,
     aged: Duration,
@@ -114,7 +138,7 @@ struct FilterSut {
     exp: HashMap<String, (Option<Instant>, i64)>,
 }
 
-fn build_filter(op: &Value) -> Result<FilterFacade, String> {
+fn build_filter(op: &Value, local_id: &NodeId) -> Result<Backend, String> {
     let q = |b: &str, p: &str| (util::i(op, b) as u64, ticks(util::i(op, p)));
     let rate_limiter = if util::b(op, "rl") {
         let (tb, tp) = q("totb", "totp");
@@ -145,11 +169,15 @@ fn build_filter(op: &Value) -> Result<FilterFacade, String> {
         0 => None,
         d => Some(ticks(d)),
     };
-    Ok(FilterFacade::new(config, ban_duration))
+    Ok(match util::s(op, "sut") {
+        "recv" => Backend::Recv(RecvFacade::new(config, ban_duration, *local_id).map_err(|e| format!("loopback socket: {e}"))?),
+        _ => Backend::Direct(FilterFacade::new(config, ban_duration)),
+    })
 }
 
-fn run_pkt(f: &mut FilterFacade, src_ip: i64, nd: i64) -> Value {
+fn run_pkt(b: &mut Backend, src_ip: i64, nd: i64) -> Value {
     let src = SocketAddr::new(ip(src_ip), 9000);
+    let mut f = b.filter();
     let r = util::guarded(|| {
         if !f.initial_pass(&src) {
             ("drop", "na")
@@ -167,11 +195,32 @@ fn run_pkt(f: &mut FilterFacade, src_ip: i64, nd: i64) -> Value {
     }
 }
 
+/// `RecvHandler::handle_inbound` for one datagram; what reached the packet handler.
+fn run_dgram(rt: &tokio::runtime::Runtime, b: &mut Backend, src_ip: i64, nd: i64, bytes: &[u8]) -> Value {
+    let Backend::Recv(r) = b else { panic!("dgram needs sut = recv") };
+    let src = SocketAddr::new(ip(src_ip), 9000);
+    match util::guarded(|| rt.block_on(r.inbound(src, bytes))) {
+        Ok(RecvOutcome::Dropped) => json!(["drop", "ok"]),
+        Ok(RecvOutcome::Unrecognized) => json!(["unrecognized", "ok"]),
+        Ok(RecvOutcome::Inbound(id)) if id.map(|n| node_of(&n)).unwrap_or(0) == nd => json!(["inbound", "ok"]),
+        Ok(RecvOutcome::Inbound(_)) => json!(["inbound-other-id", "ok"]),
+        Err(p) => json!(["panic", p]),
+    }
+}
+
 impl FilterSut {
-    fn new(op: &Value) -> Result<FilterSut, String> {
+    fn new(op: &Value, local_id: NodeId) -> Result<FilterSut, String> {
         ban_list_reset();
         let t0 = Instant::now();
-        Ok(FilterSut { f: build_filter(op)?, shadow: build_filter(op)?, now: 0, t0, aged: Duration::ZERO, exp: HashMap::new() })
+        Ok(FilterSut { f: build_filter(op, &local_id)?, shadow: build_filter(op, &local_id)?, local_id, now: 0, t0, aged: Duration::ZERO, exp: HashMap::new() })
+    }
+
+    /// The IPs a response is expected from (read from the map shared with the receive handler).
+    fn expected(&self) -> Value {
+        match &self.f {
+            Backend::Recv(r) => sorted(r.expected_sources().iter().map(|a| json!(ip_of(&a.ip()))).collect()),
+            Backend::Direct(_) => json!([]),
+        }
     }
 
     fn list(&mut self, l: &PermitBanList) -> Value {
@@ -202,7 +251,8 @@ impl FilterSut {
         })
     }
 
-    fn apply(&mut self, d5: &Discv5, op: &Value) -> (Value, Value) {
+    fn apply(&mut self, cx: &Ctx, op: &Value) -> (Value, Value) {
+        let d5 = &cx.d5;
         let ok = json!(["ok", "ok"]);
         let dur = |op: &Value| match util::i(op, "d") {
             0 => None,
@@ -216,13 +266,33 @@ impl FilterSut {
                 ban_list_set(pre);
                 return (run_pkt(&mut self.f, i, n), sh);
             }
-            "prune" => self.f.prune_limiter(),
+            "dgram" => {
+                let (i, n) = (util::i(op, "ip"), util::i(op, "node"));
+                let bytes = match util::s(op, "kind") {
+                    "msg" => random_packet(&node(n)).encode(&self.local_id),
+                    "way" => whoareyou_packet(rand::random(), rand::random(), 1).encode(&self.local_id),
+                    _ => vec![0xab; 30],     // shorter than any packet: does not decode
+                };
+                let pre = ban_list_snapshot();
+                let sh = run_dgram(&cx.rt, &mut self.shadow, i, n, &bytes);
+                ban_list_set(pre);
+                return (run_dgram(&cx.rt, &mut self.f, i, n, &bytes), sh);
+            }
+            "expect" | "unexpect" => {
+                let src = SocketAddr::new(ip(util::i(op, "ip")), 9000);
+                for b in [&self.f, &self.shadow] {
+                    if let Backend::Recv(r) = b {
+                        r.expect(src, if util::s(op, "o") == "expect" { 1 } else { 0 });
+                    }
+                }
+            }
+            "prune" => self.f.filter().prune_limiter(),
             "tick" => {
                 let d = util::i(op, "d");
                 self.now += d;
                 self.aged += ticks(d);
-                self.f.age(ticks(d));
-                self.shadow.age(ticks(d));
+                self.f.filter().age(ticks(d));
+                self.shadow.filter().age(ticks(d));
             }
             "ban_ip" => d5.ban_ip(ip(util::i(op, "ip")), dur(op)),
             "unban_ip" => d5.ban_ip_remove(&ip(util::i(op, "ip"))),
@@ -239,13 +309,13 @@ impl FilterSut {
 
     fn state(&mut self) -> Value {
         let (mut tot, mut ipl, mut ndl, mut clock) = (vec![], vec![], vec![], self.now);
-        if let Some(s) = self.f.limiter_state() {
+        if let Some(s) = self.f.filter().limiter_state() {
             clock = (s.elapsed.as_nanos() as u64 / TICK_NS) as i64;
             tot = s.total.iter().map(|t| json!([0, t / TICK_NS])).collect();
             ipl = s.ip.unwrap_or_default().iter().map(|(a, t)| json!([ip_of(a), t / TICK_NS])).collect();
             ndl = s.node.unwrap_or_default().iter().map(|(n, t)| json!([node_of(n), t / TICK_NS])).collect();
         }
-        let (known, bcnt) = self.f.tracking();
+        let (known, bcnt) = self.f.filter().tracking();
         json!({
             "clock": clock,
             "tot": sorted(tot), "ip": sorted(ipl), "node": sorted(ndl),
@@ -260,15 +330,24 @@ impl FilterSut {
 }
 
 // ------------------------------------------------------------------------------------- driver
-fn local_node() -> Result<Discv5, String> {
+/// The local node (its `Discv5` handle is the public ban / permit API) and the runtime the receive handler's socket lives in.
+struct Ctx {
+    d5: Discv5,
+    local_id: NodeId,
+    rt: tokio::runtime::Runtime,
+}
+
+fn local_node() -> Result<Ctx, String> {
     let key = CombinedKey::generate_secp256k1();
     let enr = discv5::Enr::builder().ip4(Ipv4Addr::new(10, 0, 200, 1)).udp4(9000).build(&key).map_err(|e| format!("{e:?}"))?;
     let config = ConfigBuilder::new(ListenConfig::Ipv4 { ip: Ipv4Addr::new(10, 0, 200, 1), port: 9000 }).build();
-    Discv5::new(enr, key, config).map_err(|e| e.to_string())
+    let local_id = enr.node_id();
+    let rt = tokio::runtime::Builder::new_current_thread().enable_all().build().map_err(|e| e.to_string())?;
+    Ok(Ctx { d5: Discv5::new(enr, key, config).map_err(|e| e.to_string())?, local_id, rt })
 }
 
 /// One behaviour; `Err` = it took too much real time to be conclusive (the caller re-runs it).
-fn run_once(d5: &Discv5, ops: &[Value]) -> Result<Vec<Value>, String> {
+fn run_once(cx: &Ctx, ops: &[Value]) -> Result<Vec<Value>, String> {
     let started = Instant::now();
     let mut events = Vec::with_capacity(ops.len());
     let mut lim: Option<LimSut> = None;
@@ -282,11 +361,12 @@ fn run_once(d5: &Discv5, ops: &[Value]) -> Result<Vec<Value>, String> {
                     lim = Some(LimSut::new(op).unwrap_or_else(|e| panic!("limiter reset {op}: {e}")));
                     events.push(json!({"op": op, "now": 0, "ret": ["Ok", 0], "sh": ["Ok", 0], "st": []}));
                 }
-                "filter" => {
-                    let mut f = FilterSut::new(op).unwrap_or_else(|e| panic!("filter reset {op}: {e}"));
+                "filter" | "recv" => {
+                    let _in_rt = cx.rt.enter();
+                    let mut f = FilterSut::new(op, cx.local_id).unwrap_or_else(|e| panic!("filter reset {op}: {e}"));
                     let l = f.list(&ban_list_snapshot());
                     let st = f.state();
-                    events.push(json!({"op": op, "now": 0, "ret": ["ok", "ok"], "sh": ["ok", "ok"], "pre": l, "post": l, "st": st}));
+                    events.push(json!({"op": op, "now": 0, "ret": ["ok", "ok"], "sh": ["ok", "ok"], "pre": l, "post": l, "exp": [], "st": st}));
                     fil = Some(f);
                 }
                 s => panic!("filter: unknown sut {s}"),
@@ -301,10 +381,11 @@ fn run_once(d5: &Discv5, ops: &[Value]) -> Result<Vec<Value>, String> {
             events.push(json!({"op": op, "now": s.now, "ret": ret, "sh": sh, "st": s.state()}));
         } else if let Some(s) = fil.as_mut() {
             let pre = s.list(&ban_list_snapshot());
-            let (ret, sh) = s.apply(d5, op);
+            let exp = s.expected();
+            let (ret, sh) = s.apply(cx, op);
             let post = s.list(&ban_list_snapshot());
             let st = s.state();
-            events.push(json!({"op": op, "now": s.now, "ret": ret, "sh": sh, "pre": pre, "post": post, "st": st}));
+            events.push(json!({"op": op, "now": s.now, "ret": ret, "sh": sh, "pre": pre, "post": post, "exp": exp, "st": st}));
         } else {
             panic!("behaviour must start with reset");
         }
@@ -315,9 +396,9 @@ fn run_once(d5: &Discv5, ops: &[Value]) -> Result<Vec<Value>, String> {
     Ok(events)
 }
 
-fn run(d5: &Discv5, ops: &[Value], out: &mut Out) -> Result<(), String> {
+fn run(cx: &Ctx, ops: &[Value], out: &mut Out) -> Result<(), String> {
     for _ in 0..3 {
-        if let Ok(events) = run_once(d5, ops) {
+        if let Ok(events) = run_once(cx, ops) {
             for e in &events {
                 out.emit(e);
             }
@@ -328,9 +409,9 @@ fn run(d5: &Discv5, ops: &[Value], out: &mut Out) -> Result<(), String> {
 }
 
 pub fn replay(behaviours: &[Vec<Value>], out: &mut Out) -> Result<(), String> {
-    let d5 = local_node()?;
+    let cx = local_node()?;
     for b in behaviours {
-        run(&d5, b, out)?;
+        run(&cx, b, out)?;
     }
     ban_list_reset();
     Ok(())
@@ -338,7 +419,7 @@ pub fn replay(behaviours: &[Vec<Value>], out: &mut Out) -> Result<(), String> {
 
 /// Seeded random driver, limiter level: bursts up to 8, 4 keys, batches of 1..3 tokens, prune anywhere.
 pub fn drive_limiter(seed: u64, n: usize, out: &mut Out) -> Result<(), String> {
-    let d5 = local_node()?;
+    let cx = local_node()?;
     let mut rng = StdRng::seed_from_u64(seed);
     let mut left = n;
     while left > 0 {
@@ -361,14 +442,23 @@ pub fn drive_limiter(seed: u64, n: usize, out: &mut Out) -> Result<(), String> {
                 }
             });
         }
-        run(&d5, &ops, out)?;
+        run(&cx, &ops, out)?;
     }
     Ok(())
 }
 
 /// Seeded random driver, filter level: up to 4 IPs and 5 node ids, random quotas, ban / permit operations, prune anywhere.
 pub fn drive_filter(seed: u64, n: usize, out: &mut Out) -> Result<(), String> {
-    let d5 = local_node()?;
+    drive_packets(seed, n, out, false)
+}
+
+/// The same at the receive-task level: datagrams of every kind through `handle_inbound`, sources with expected responses.
+pub fn drive_recv(seed: u64, n: usize, out: &mut Out) -> Result<(), String> {
+    drive_packets(seed, n, out, true)
+}
+
+fn drive_packets(seed: u64, n: usize, out: &mut Out, recv: bool) -> Result<(), String> {
+    let cx = local_node()?;
     let mut rng = StdRng::seed_from_u64(seed);
     let mut left = n;
     while left > 0 {
@@ -386,7 +476,7 @@ pub fn drive_filter(seed: u64, n: usize, out: &mut Out) -> Result<(), String> {
         let (nodeb, nodep) = quota(&mut rng, true, 1);
         let (totb, totp) = quota(&mut rng, false, 2);
         let features = rng.gen_bool(0.15);
-        let mut ops = vec![json!({"o": "reset", "sut": "filter", "enabled": true, "rl": rng.gen_bool(0.95),
+        let mut ops = vec![json!({"o": "reset", "sut": if recv { "recv" } else { "filter" }, "enabled": true, "rl": rng.gen_bool(0.95),
             "ipb": ipb, "ipp": ipp, "nodeb": nodeb, "nodep": nodep, "totb": totb, "totp": totp,
             "maxNodes": if features { rng.gen_range(0..=3) } else { 0 }, "maxBans": if features { rng.gen_range(0..=2) } else { 0 },
             "banDur": rng.gen_range(0..=4)})];
@@ -397,7 +487,13 @@ pub fn drive_filter(seed: u64, n: usize, out: &mut Out) -> Result<(), String> {
             let i = rng.gen_range(1..=nips);
             let nd = rng.gen_range(1..=nnodes);
             ops.push(match rng.gen_range(0..20) {
+                0..=10 if recv => match rng.gen_range(0..10) {
+                    0 => json!({"o": "dgram", "ip": i, "kind": "way", "node": 0}),
+                    1 => json!({"o": "dgram", "ip": i, "kind": "junk", "node": 0}),
+                    _ => json!({"o": "dgram", "ip": i, "kind": "msg", "node": nd}),
+                },
                 0..=10 => json!({"o": "pkt", "ip": i, "node": if rng.gen_bool(0.15) { 0 } else { nd }}),
+                17 if recv => json!({"o": if rng.gen_bool(0.6) { "expect" } else { "unexpect" }, "ip": i}),
                 11..=12 => json!({"o": "prune"}),
                 13..=16 => json!({"o": "tick", "d": if rng.gen_bool(0.8) { 1 } else { rng.gen_range(2..=4) }}),
                 _ if !lists => json!({"o": "tick", "d": 1}),
@@ -413,7 +509,7 @@ pub fn drive_filter(seed: u64, n: usize, out: &mut Out) -> Result<(), String> {
                 },
             });
         }
-        run(&d5, &ops, out)?;
+        run(&cx, &ops, out)?;
     }
     ban_list_reset();
     Ok(())
